@@ -33,7 +33,7 @@ META = {
     "rule": "case = one generated program = one smpirun; non-trivial = distinct programs in which at least two ranks issued RMA calls and "
             "every phase ran to its dumps and was judged",
     "assumptions": ["--cfg=smpi/simulate-computation:no (deterministic schedules; delays are scripted)"],
-    "ready": False,
+    "ready": True,
 }
 
 CFG = ["--cfg=smpi/simulate-computation:no"]
